@@ -79,6 +79,11 @@ func VerifC17Discovered() {
 	viaParam := vBool("viaParameter")
 	scanModels := vBool("scanModels")
 	nested := vBool("nestedRef")
+	noBlank := vBool("annotationWithoutBlank") // "//swagger:model X", the directive form gofmt keeps
+	ann := "// swagger:model"
+	if noBlank {
+		ann = "//swagger:model"
+	}
 	vAssume(vImplies(sameGoName, override)) // two types named alike need distinct model names to coexist at all
 	g2 := "Cat"
 	if sameGoName {
@@ -90,14 +95,14 @@ func VerifC17Discovered() {
 		m1, m2 = " PetV1", " PetV2"
 		want1, want2 = "PetV1", "PetV2"
 	}
-	v1 := "package v1\n\n// Pet is the first version\n//\n// swagger:model" + m1 + "\ntype Pet struct {\n\tName string `json:\"name\"`\n}\n"
+	v1 := "package v1\n\n// Pet is the first version\n//\n" + ann + m1 + "\ntype Pet struct {\n\tName string `json:\"name\"`\n}\n"
 	inner := ""
 	innerField := ""
 	if nested {
 		inner = "// Tag is only reachable through the second model\n//\n// swagger:model\ntype Tag struct {\n\tLabel string `json:\"label\"`\n}\n\n"
 		innerField = "\tTag *Tag `json:\"tag\"`\n"
 	}
-	v2 := "package v2\n\n" + inner + "// " + g2 + " is the second version\n//\n// swagger:model" + m2 + "\ntype " + g2 + " struct {\n\tAge int32 `json:\"age\"`\n" + innerField + "}\n"
+	v2 := "package v2\n\n" + inner + "// " + g2 + " is the second version\n//\n" + ann + m2 + "\ntype " + g2 + " struct {\n\tAge int32 `json:\"age\"`\n" + innerField + "}\n"
 	body := "struct {\n\t\tA v1.Pet `json:\"a\"`\n\t\tB []v2." + g2 + " `json:\"b\"`\n\t}"
 	api := "package api\n\nimport (\n\tv1 \"example.com/v1\"\n\tv2 \"example.com/v2\"\n)\n\n"
 	if viaParam {
@@ -143,11 +148,15 @@ func VerifC17ParamOverride() {
 		redeclare[i] = vBool("redeclare." + names[i])
 	}
 	embed := vBool("throughEmbeddedStruct")
+	renamed := vBool("inputHasAnotherOperationId") // the input spec knows GET /pets under an id the code no longer uses
 	input := &spec.Swagger{}
 	input.Swagger = "2.0"
 	input.Paths = &spec.Paths{Paths: map[string]spec.PathItem{}}
 	op := &spec.Operation{}
 	op.ID = "listPets"
+	if renamed {
+		op.ID = "findPets"
+	}
 	for i := 0; i < 3; i++ {
 		p := spec.QueryParam(names[i])
 		p.Type, p.Format = "integer", "int64"
@@ -188,6 +197,23 @@ func VerifC17ParamOverride() {
 	got := sw.Paths.Paths["/pets"].Get
 	vAssert(got != nil, "the operation of the input spec is gone")
 	if got == nil {
+		return
+	}
+	vAssert(got.ID == "listPets", "GET /pets does not carry the operation id the code declares")
+	if renamed {
+		// the route of the code takes the place of the stale operation: what the code declares must be there
+		for i := range names {
+			if !redeclare[i] {
+				continue
+			}
+			found := false
+			for _, p := range got.Parameters {
+				if p.Name == names[i] && p.Format == "int32" {
+					found = true
+				}
+			}
+			vAssert(found, "a parameter the code declares for the operation is missing from the document")
+		}
 		return
 	}
 	var seen []string
